@@ -104,6 +104,7 @@ func (x *X) call1(f *Frame, st *State, call *ast.CallExpr) []Value {
 		return x.unknownCall(f, st, call, sig, name, nil, args)
 	}
 	if fn != nil {
+		x.checkCallsites(f, st, fn, args, call)
 		if h, ok := nativeFuncs[name]; ok {
 			return h(x, f, st, call, recv, args)
 		}
@@ -266,34 +267,14 @@ func (x *X) applyContract(f *Frame, st *State, spec *FuncSpec, fn *types.Func, r
 		c.obligeNamed(nm, "pre", st.pc, t, pos, cl.Text)
 		c.assume(st.pc, t)
 	}
-	// caller-side callsite requirements
-	if f.spec != nil && f.top && call != nil {
-		for _, cs := range f.spec.Callsites {
-			if cs.Ord != ord || !calleeMatches(cs.Callee, fn) {
-				continue
-			}
-			cs.used = true
-			cenv := x.specEnvFor(f, st, call.Pos())
-			nn := map[string]Value{}
-			for k, v := range cenv.names {
-				nn[k] = v
-			}
-			for i, a := range args {
-				nn[fmt.Sprintf("arg%d", i)] = a
-			}
-			cenv.names = nn
-			t := x.specBool(cenv, x.clause(&cs.Clause))
-			nm := fmt.Sprintf("callsite:%s#%d", cs.Callee, ord)
-			if cs.Clause.Name != "" {
-				nm += ":" + cs.Clause.Name
-			}
-			c.obligeNamed(nm, "callsite", st.pc, t, pos, cs.Clause.Text)
-		}
-	}
 	oldSt := st.clone()
 	// havoc frame
-	if spec.ModAll {
+	if spec.ModAll || (spec.Mode == "abstract" && !spec.Trusted && len(spec.Modifies) == 0 && !spec.ModNothing) {
+		// abstract-mode callees have an unchecked heap frame: unless the contract lists one
+		// (then it is an assumption), everything reachable from the arguments is havocked
 		x.havocReachable(st, recv, args, fn.FullName())
+	} else if spec.Mode == "abstract" && !spec.Trusted {
+		c.assumption("declared heap frame of abstract-mode function " + shortFuncName(spec.Key) + " is assumed, not checked")
 	}
 	for _, m := range spec.Modifies {
 		x.havocTarget(env, st, m, spec)
@@ -313,6 +294,14 @@ func (x *X) applyContract(f *Frame, st *State, spec *FuncSpec, fn *types.Func, r
 		pnames[k] = v
 	}
 	bindResults(pnames, sig, vals)
+	// the callee's ghost variables are existentially quantified from the caller's point of view
+	for _, gv := range spec.GhostVars {
+		gt, err := x.prog.resolveTypeText(gv.Type, fn.Pkg())
+		if err != nil {
+			fail("%s: ghost var %s: %v", spec.Key, gv.Name, err)
+		}
+		pnames[gv.Name] = c.freshValue("gx_"+gv.Name, gt)
+	}
 	penv := &SpecEnv{x: x, st: st, old: oldSt, names: pnames, oldNames: names, pkg: fn.Pkg()}
 	for i := range spec.Ensures {
 		cl := &spec.Ensures[i]
@@ -332,6 +321,36 @@ func (x *X) applyContract(f *Frame, st *State, spec *FuncSpec, fn *types.Func, r
 		c.assumption("assumed contract: " + spec.Key)
 	}
 	return vals
+}
+
+// checkCallsites: caller-side requirements pinned to one call site (callee name + ordinal),
+// evaluated in the caller's scope just before the call; arg0..argN name the actual arguments.
+func (x *X) checkCallsites(f *Frame, st *State, fn *types.Func, args []Value, call *ast.CallExpr) {
+	if f.spec == nil || !f.top || call == nil {
+		return
+	}
+	ord := f.callOrd[call]
+	for _, cs := range f.spec.Callsites {
+		if cs.Ord != ord || !calleeMatches(cs.Callee, fn) {
+			continue
+		}
+		cs.used = true
+		cenv := x.specEnvFor(f, st, call.Pos())
+		nn := map[string]Value{}
+		for k, v := range cenv.names {
+			nn[k] = v
+		}
+		for i, a := range args {
+			nn[fmt.Sprintf("arg%d", i)] = a
+		}
+		cenv.names = nn
+		t := x.specBool(cenv, x.clause(&cs.Clause))
+		nm := fmt.Sprintf("callsite:%s#%d", cs.Callee, ord)
+		if cs.Clause.Name != "" {
+			nm += ":" + cs.Clause.Name
+		}
+		x.c.obligeNamed(nm, "callsite", st.pc, t, x.pos(call.Pos()), cs.Clause.Text)
+	}
 }
 
 func lastName(s string) string {
@@ -364,6 +383,16 @@ func (x *X) bumpAlloc(st *State) {
 // wfValue assumes Go's type invariants of a value: slices have len <= cap <= 2^40; nil slices are empty.
 func (x *X) wfValue(st *State, v Value) {
 	l := layoutOf(v.T)
+	// every reference held by a value was allocated before now
+	for i, comp := range l.Comps {
+		if comp.Sort != SRef || i >= len(v.C) {
+			continue
+		}
+		switch comp.T.Underlying().(type) {
+		case *types.Pointer, *types.Map, *types.Interface, *types.Chan:
+			x.c.assume(st.pc, bvcmp("bvult", v.C[i], x.c.alloc(st)))
+		}
+	}
 	for i := 0; i+3 < len(l.Comps) && i+3 < len(v.C); i++ {
 		if strings.HasSuffix(l.Comps[i].Path, ".ref") && strings.HasSuffix(l.Comps[i+3].Path, ".cap") {
 			ref, off, ln, cp := v.C[i], v.C[i+1], v.C[i+2], v.C[i+3]
